@@ -19,6 +19,8 @@ import (
 	"fmt"
 	"strings"
 
+	"github.com/shopspring/decimal"
+
 	. "verif/harness/hlib"
 
 	"github.com/skycoin/skycoin/src/cipher"
@@ -26,6 +28,7 @@ import (
 	"github.com/skycoin/skycoin/src/cipher/bip44"
 	"github.com/skycoin/skycoin/src/cipher/crypto"
 	"github.com/skycoin/skycoin/src/coin"
+	"github.com/skycoin/skycoin/src/transaction"
 	"github.com/skycoin/skycoin/src/wallet"
 	"github.com/skycoin/skycoin/src/wallet/bip44wallet"
 	"github.com/skycoin/skycoin/src/wallet/collection"
@@ -238,16 +241,126 @@ func execSign(f []string) string {
 		same(res.InnerHash == txn.InnerHash), same(res.Length == txn.Length && res.Type == txn.Type), orig)
 }
 
+// execCsign drives wallet.CreateTransactionSigned: the offered outputs are owned by the wallet's
+// entries in the given pattern, coins strictly descending in list order (= the order ChooseSpends
+// picks them), and the request needs all of them.  Every input's signature must verify against
+// the address of the output it spends.
+//
+//	csign wallet=<type>:<seed>:<n>:0 nent=<k> ux=<e<i>:<coins>:<hours>,..>
+//	-> ok sigs=<s|b,..> owners=<e<i>,..> verify=<ok|..> vis=<ok|..>  |  err <kind>
+func execCsign(f []string) string {
+	m := kv(f)
+	w := mkWallet(m["wallet"])
+	addrs, _ := entryKeys(m["wallet"])
+	idxOf := map[cipher.Address]int{}
+	for i, a := range addrs {
+		if _, ok := idxOf[a]; !ok {
+			idxOf[a] = i
+		}
+	}
+	auxs := coin.AddressUxOuts{}
+	byHash := map[cipher.SHA256]coin.UxOut{}
+	var total uint64
+	for i, u := range list(m["ux"]) {
+		x := strings.Split(u, ":")
+		j := int(PU64(x[0][1:]))
+		if j >= len(addrs) {
+			panic("harness: entry index out of range")
+		}
+		ux := coin.UxOut{Head: coin.UxHead{Time: 100, BkSeq: uint64(i + 1)},
+			Body: coin.UxBody{SrcTransaction: cipher.SumSHA256([]byte{byte(i), byte(j), 'c'}), Address: addrs[j], Coins: PU64(x[1]), Hours: PU64(x[2])}}
+		auxs[addrs[j]] = append(auxs[addrs[j]], ux)
+		byHash[ux.Hash()] = ux
+		total += ux.Body.Coins
+	}
+	dst, _ := foreignKey(7)
+	half := decimal.New(5, -1)
+	change := addrs[0]
+	p := transaction.Params{
+		HoursSelection: transaction.HoursSelection{Type: transaction.HoursSelectionTypeAuto, Mode: transaction.HoursSelectionModeShare, ShareFactor: &half},
+		To:             []coin.TransactionOutput{{Address: dst, Coins: total - 1000}},
+		ChangeAddress:  &change,
+	}
+	txn, uxb, err := wallet.CreateTransactionSigned(w, p, auxs, 100)
+	if err != nil {
+		if _, ok := err.(wallet.Error); ok {
+			return "err Error(other)"
+		}
+		if _, ok := err.(transaction.Error); ok {
+			return "err Error(txn)"
+		}
+		return "err other"
+	}
+	var ss, owners []string
+	var uxIn coin.UxArray
+	for i, in := range txn.In {
+		ux, ok := byHash[in]
+		if !ok || i >= len(uxb) || uxb[i].Hash != in {
+			ss = append(ss, "b")
+			owners = append(owners, "?")
+			continue
+		}
+		uxIn = append(uxIn, ux)
+		owners = append(owners, fmt.Sprintf("e%d", idxOf[ux.Body.Address]))
+		if i < len(txn.Sigs) && cipher.VerifyAddressSignedHash(ux.Body.Address, txn.Sigs[i], cipher.AddSHA256(txn.InnerHash, in)) == nil {
+			ss = append(ss, "s")
+		} else {
+			ss = append(ss, "b")
+		}
+	}
+	v := func(err error) string {
+		if err != nil {
+			return strings.Replace(err.Error(), " ", "_", -1)
+		}
+		return "ok"
+	}
+	vis := "skipped"
+	if len(uxIn) == len(txn.In) {
+		vis = v(txn.VerifyInputSignatures(uxIn))
+	}
+	return fmt.Sprintf("ok sigs=%s owners=%s verify=%s vis=%s", strings.Join(ss, ","), strings.Join(owners, ","), v(txn.Verify()), vis)
+}
+
 func c13Exec(op string) string {
 	f := Fields(op)
 	if f[0] == "sign" {
 		return execSign(f)
 	}
+	if f[0] == "csign" {
+		return execCsign(f)
+	}
 	panic("harness: unknown op " + f[0])
+}
+
+// csignOps: created-and-signed transactions whose chosen inputs revisit addresses in every order
+func csignOps(r *Rng, count int, emit func(string)) {
+	patterns := [][]int{{0, 1, 0}, {0, 1, 1, 0}, {0, 1, 2, 0}, {1, 0, 1, 0}, {0, 0, 1}, {0, 1, 2, 1, 0}, {2, 1, 0}, {0}, {1, 1}}
+	for it := 0; it < count; it++ {
+		typ := []string{"deterministic", "bip44", "collection"}[r.Intn(3)]
+		nEnt := 2 + r.Intn(3)
+		spec := fmt.Sprintf("%s:%s:%d:0", typ, Hex(r.Bytes(16)), nEnt)
+		addrs, _ := entryKeys(spec)
+		var pat []int
+		if it%3 == 2 { // random walk over the addresses
+			for i := 0; i < 2+r.Intn(5); i++ {
+				pat = append(pat, r.Intn(len(addrs)))
+			}
+		} else {
+			pat = patterns[r.Intn(len(patterns))]
+		}
+		coins := uint64(len(pat)+2) * 3000000
+		var ux []string
+		for _, e := range pat {
+			coins -= uint64(1+r.Intn(2)) * 1000000
+			ux = append(ux, fmt.Sprintf("e%d:%d:%d", e%len(addrs), coins, 10+r.Intn(90)))
+		}
+		emit(fmt.Sprintf("csign wallet=%s nent=%d ux=%s", spec, len(addrs), strings.Join(ux, ",")))
+	}
 }
 
 func c13Gen(r *Rng, tier string, emit func(string)) {
 	n := 800
+	csignOps(r, map[bool]int{false: 150, true: 1500}[tier == "thorough"], emit)
 	if tier == "thorough" {
 		n = 6000
 	}
